@@ -5,10 +5,30 @@ HARNESS = {
                    asan=False, ubsan=False, cflags=['-O2']),
     'rand': dict(cpp=['h/h_rand.cpp'], c=['adp/adp_rand.c'], repo=['librfn/rand.c'], asan=False, ubsan=False,
                  cflags=['-O2']),
+    'pack': dict(cpp=['h/h_pack.cpp'], c=['adp/adp_pack.c'], repo=['librfn/pack.c']),
     'list': dict(cpp=['h/h_list.cpp'], c=['adp/adp_list.c'], repo=['librfn/list.c']),
 }
 
 PROPS = {
+    'C12': dict(
+        title='Pack/unpack never leaves the buffer, fails stickily, and uses fixed byte order',
+        rule='case = buffer size 0..64 (exact heap block, ASan) + <=24 pack/unpack ops with edge/random values, byte '
+             'counts 0..40 or sized to land one short of / exactly on / one past the end, NULL and non-NULL arrays, '
+             'then (pure pack sequences) rewind and unpack everything; custom stage = all 65536 values through every '
+             '16-bit op and all single-byte patterns through the 32-bit ops. Non-trivial: the sequence contains both '
+             'an exact fit and an overflow. Distinct = distinct tapes.',
+        stages=[
+            dict(h='pack', mode='rc', what='random op sequences', quick=dict(cases=200000, len=400),
+                 thorough=dict(cases=5000000, len=400)),
+            dict(h='pack', mode='enum', what='all short sequences over a reduced domain', params=dict(maxsize=3),
+                 common=dict(maxruns=4000000), quick=dict(params=dict(ops=3)), thorough=dict(params=dict(ops=4))),
+            dict(h='pack', mode='custom', what='value sweeps (all 16-bit values; 32-bit single-byte patterns)'),
+        ],
+        require={'exact-fit': 1000, 'overflow': 1000, 'round-trip': 1000, 'pack-null-source': 1000,
+                 'unpack-null-destination': 1000},
+        assumptions=['total requested bytes stay far below 2^31 (scope of the property)',
+                     'operations declared in pack.h but not implemented are exercised only if the tree defines them (weak references)'],
+    ),
     'C16': dict(
         title='Bit-counting helpers equal their mathematical definitions on all inputs',
         rule='custom stage: every one of the 2^32 arguments through bitcnt/clz/ctz/ilog2 (16-way split), all 1-bit, '
